@@ -253,9 +253,11 @@ def c11_oracle(payload):
                            % _mx(np.abs(gh[g > -100] - g[g > -100])))
             # split a medium into two adjacent pieces (no radials)
             med = spec['media']
-            if not med[0].get('nradials'):
+            if True:
                 lam_ = 299.8 / spec['f']
-                for k in (range(len(med)) if case.get('fixed_sources') else [rng.randrange(len(med))]):
+                # (a radial screen lies in the first medium only: with radials the media behind it are split)
+                ks = [k_ for k_ in range(len(med)) if not (med[0].get('nradials') and k_ == 0)]
+                for k in ((ks if case.get('fixed_sources') else [rng.choice(ks)]) if ks else []):
                     s2 = copy.deepcopy(spec)
                     piece = copy.deepcopy(med[k])
                     lo = med[k - 1]['coord'] if k > 0 else 0.0
